@@ -29,7 +29,9 @@ CONFIG = {
                      'RowBlockIter::Create is exercised through a transcription of data.cc CreateIter_ in the harness '
                      '(URISpec + parser construction + BasicRowIter/DiskRowIter), not by linking data.cc',
                      'the 64 MB page case is compared with a size-level shadow of the model (driver bigPages)'],
-    'partial': [],
+    # proved with the decidable hypothesis Compatible / HasSig (= complement of the open class mixed-presence-push);
+    # the full statement C13_push_block_statement is refuted on a witness (C13_push_block_statement_false)
+    'partial': ['C13_push_block', 'C13_push_row', 'C13_iter_basic', 'C13_iter_disk', 'C13_iter_disk_kPageSize'],
 }
 
 MANIFEST = {
